@@ -48,10 +48,23 @@ def usable(crys, chem, k, closest=0, max_jumps=40):
     return nw.gf_ok(crys, chem, sl, jn)
 
 
+def site_vector_basis(crys, chem=0):
+    """True when some site of the species has a non-zero vector basis (then the calculator has 'origin states')"""
+    return any(crys.VectorBasis((chem, i))[0] > 0 for i in range(len(crys.basis[chem])))
+
+
+NO_OS = ["SC", "FCC", "BCC", "HCP", "diamond", "B2o", "L12", "omega", "square", "tria", "honeycomb"]
+
+
 @st.composite
-def setups(draw, dim=None, nthermo=(1, 2), max_mobile=3, p_catalogue=0.5, names=None, max_jumps=40):
-    """crystal + percolating vacancy network + thermodynamic range; species 0 is the vacancy sublattice"""
+def setups(draw, dim=None, nthermo=(1, 2), max_mobile=3, p_catalogue=0.5, names=None, max_jumps=40, originstates="any"):
+    """crystal + percolating vacancy network + thermodynamic range; species 0 is the vacancy sublattice.
+    originstates: "any" | "no" (crystals whose vacancy sites carry a vector basis are replaced; the setup is then marked
+    with "redrawn": "originstates" so that the number of exclusions can be counted)"""
     names = SMALL if names is None else names
+    if originstates == "no":
+        names = [n for n in names if n in NO_OS]
+    redrawn = None
     if draw(st.floats(0, 1)) < p_catalogue:
         cands = cs.catalogue(names, dim)
         rec = draw(st.sampled_from(cands))
@@ -60,16 +73,26 @@ def setups(draw, dim=None, nthermo=(1, 2), max_mobile=3, p_catalogue=0.5, names=
     crys = cs.build(rec)
     # smallest usable shell, occasionally one more
     ks = [k for k in (1, 2, 3, 4) if usable(crys, 0, k, 0, max_jumps)]
+    if ks and originstates == "no" and site_vector_basis(crys, 0):
+        ks = []
+        redrawn = "originstates"
     if not ks:
         # generated decoration has no affordable percolating network: fall back to a multi-site catalogue structure
         d_ = dim or len(rec["lattice"])
-        multi = [n for n in MULTI if len(cs.CATALOGUE[n]["lattice"]) == d_ and n in names] or [n for n in names if len(cs.CATALOGUE[n]["lattice"]) == d_]
+        def ks_of(n):
+            c_ = cs.build(cs.CATALOGUE[n])
+            return [k for k in (1, 2, 3, 4) if usable(c_, 0, k, 0, max_jumps)]
+        multi = [n for n in MULTI if len(cs.CATALOGUE[n]["lattice"]) == d_ and n in names and ks_of(n)] or \
+                [n for n in names if len(cs.CATALOGUE[n]["lattice"]) == d_ and ks_of(n)]
         rec = cs.CATALOGUE[draw(st.sampled_from(multi))]
         crys = cs.build(rec)
-        ks = [k for k in (1, 2, 3, 4) if usable(crys, 0, k, 0, max_jumps)]
+        ks = ks_of(rec["name"])
     k = ks[0] if (len(ks) == 1 or draw(st.floats(0, 1)) < 0.8) else ks[1]
     N = draw(st.sampled_from(list(nthermo)))
-    return {"recipe": rec, "chem": 0, "k": k, "closest": 0, "Nthermo": N}
+    out = {"recipe": rec, "chem": 0, "k": k, "closest": 0, "Nthermo": N}
+    if redrawn:
+        out["redrawn"] = redrawn
+    return out
 
 
 def _r(x):
